@@ -152,6 +152,10 @@ var intrinsics = map[string]intrinsic{
 		x.vc.assume(reach, mkImp(is10, mkEq(ok, app(SBool, "isDec", a[1].term()))))
 		nv := x.vc.fresh("setstring.v", SInt)
 		x.vc.assume(reach, mkImp(mkAnd(is10, ok), mkEq(nv, app(SInt, "undec", a[1].term()))))
+		// the empty string: SetString fails and leaves 0 (observed behaviour of math/big - the
+		// documentation calls the value undefined; listed as an assumption)
+		x.vc.assume(reach, mkImp(mkEq(a[1].term(), mkRaw("sempty", SStr)), mkEq(nv, mkInt64(0))))
+		addUnique(&x.report.ContractUsed, "assumption: (*big.Int).SetString(\"\") leaves the receiver 0")
 		x.bigSet(st, a[0], nv)
 		return []*Sym{scalar(a[0].T, mkIte(ok, a[0].term(), mkInt64(0))), scalar(types.Typ[types.Bool], ok)}
 	}},
